@@ -55,6 +55,9 @@ def gen_plan(rng, opts=None):
     net = dict(lat_lo=50_000, lat_hi=rng.choice([200_000, 5_000_000, 300_000_000, 2_000_000_000]), drop=0, dup=0, max_consec=None)
     if o["lossy"]:
         net.update(drop=rng.choice([0, 10, 25]), dup=rng.choice([0, 10, 25]), max_consec=rng.choice([2, 4]))
+        if rng.random() < 0.3:
+            # a connection outage: one frame (and what queues behind it on that pipe) arrives 5-40 s late
+            net["plan"] = {"hold": {str(rng.randint(0, 40)): rng.choice([5, 13, 20, 40]) * 10**9}}
     return dict(hosts=hosts, dss=dss, home=home, sizes=sizes, cmds=cmds, net=net)
 
 
